@@ -469,12 +469,35 @@ Definition u_2026_hm : list Z := str [50;54;48;49;48;49;49;50;48;48;90]%nat.    
 Definition u_2026 : list Z := str [50;54;48;49;48;49;49;50;48;48;48;48;90]%nat.            (* 260101120000Z *)
 Definition u_2026_off : list Z := str [50;54;48;49;48;49;49;51;48;48;48;48;43;48;49;48;48]%nat. (* 260101130000+0100 *)
 
-(* asn_OP_UTCTime.der_encoder = OCTET_STRING_encode_der: three spellings of one instant, three DER *)
-Theorem ut_der_verbatim_refuted :
+(* UTCTime_encode_der (fix 05 of notes/fixes/I): the DER contents depend on the instant only ... *)
+Theorem ut_der_same_instant s1 lg1 s2 lg2 t a1 b1 a2 b2 :
+  UT2time s1 lg1 = GtOk t a1 b1 -> UT2time s2 lg2 = GtOk t a2 b2 -> ut_min <= t < ut_max ->
+  ut_der s1 lg1 = ut_der s2 lg2.
+Proof.
+  intros H1 H2 Ht. destruct (ut_canon_idempotent s1 lg1 t a1 b1 H1 Ht) as (out & _ & Hc & _).
+  unfold ut_der. rewrite <- (ut_canon_same_instant _ _ _ _ _ _ _ _ _ H1 H2), Hc. reflexivity.
+Qed.
+
+(* ... have the X.690 11.8 shape (twelve digits and Z) and are a fixed point of the encoder under every zone setting *)
+Theorem ut_der_shape_idempotent bs lg t a b : UT2time bs lg = GtOk t a b -> ut_min <= t < ut_max ->
+  exists ds, ut_der bs lg = ds ++ [90] /\ digits_ok ds /\ length ds = 12%nat /\
+    forall lg', ut_der (ut_der bs lg) lg' = ut_der bs lg.
+Proof.
+  intros H Ht. destruct (ut_canon_idempotent bs lg t a b H Ht) as (out & ds & Hc & Heq & Hok & Hlen & Hback).
+  assert (Hd : ut_der bs lg = out) by (unfold ut_der; rewrite Hc; reflexivity).
+  exists ds. rewrite Hd. split; [exact Heq|]. split; [exact Hok|]. split; [exact Hlen|].
+  intros lg'. unfold ut_der. rewrite Hback. reflexivity.
+Qed.
+
+(* a text asn_UT2time does not read is written as it is stored *)
+Theorem ut_der_unread_verbatim bs lg : ut_canon bs lg = None -> ut_der bs lg = bs.
+Proof. intros H. unfold ut_der. rewrite H. reflexivity. Qed.
+
+(* three spellings of one instant (the witnesses of the former finding C06-utctime-der-verbatim): one DER *)
+Theorem ut_der_witnesses :
   UT2time u_2026_hm 0 = GtOk 1767268800 0 0 /\ UT2time u_2026 0 = GtOk 1767268800 0 0 /\
   UT2time u_2026_off 0 = GtOk 1767268800 0 0 /\
-  ut_der u_2026_hm <> ut_der u_2026 /\ ut_der u_2026_off <> ut_der u_2026 /\
-  ut_canon u_2026_hm 0 = Some u_2026 /\ ut_canon u_2026_off 0 = Some u_2026 /\ ut_canon u_2026 0 = Some u_2026.
+  ut_der u_2026_hm 0 = u_2026 /\ ut_der u_2026_off 0 = u_2026 /\ ut_der u_2026 0 = u_2026.
 Proof. vm_compute. repeat split; congruence. Qed.
 
 (* ------------------------------------------------------------------ *)
@@ -498,18 +521,37 @@ Proof.
   rewrite HA, HB. symmetry. apply Zmult_compare_compat_r. lia.
 Qed.
 
-(* the C agrees with it when both texts carry the same number of fraction digits *)
-Theorem frac_cmp_c_partial av ad bv bd : 0 <= bd -> ad = bd ->
+(* the repaired C (C06-fix-9) IS that order, whatever the two digit counts *)
+Theorem frac_cmp_c_value_order av ad bv bd : 0 <= ad -> 0 <= bd ->
   frac_cmp_c av ad bv bd = frac_cmp_fix av ad bv bd.
 Proof.
-  intros Hp ->. unfold frac_cmp_c, frac_cmp_fix. rewrite Z.eqb_refl.
+  intros Ha Hb. unfold frac_cmp_c, frac_cmp_fix. destruct (ad =? bd) eqn:E; [|reflexivity].
+  apply Z.eqb_eq in E. subst ad.
   apply Zmult_compare_compat_r. assert (0 < 10 ^ bd) by (apply Z.pow_pos_nonneg; lia). lia.
 Qed.
 
-(* and not otherwise: .5 against .50 (equal), no fraction against .0 (equal), .5 against .25, .25 against .3 (order reversed) *)
-Theorem frac_cmp_c_refuted :
-  frac_cmp_fix 5 1 50 2 = Eq /\ frac_cmp_c 5 1 50 2 = Lt /\
-  frac_cmp_fix 0 0 0 1 = Eq /\ frac_cmp_c 0 0 0 1 = Lt /\
-  frac_cmp_fix 5 1 25 2 = Gt /\ frac_cmp_c 5 1 25 2 = Lt /\
-  frac_cmp_fix 25 2 3 1 = Lt /\ frac_cmp_c 25 2 3 1 = Gt.
+Theorem frac_cmp_c_nanos av ad bv bd : 0 <= ad <= 9 -> 0 <= bd <= 9 ->
+  frac_cmp_c av ad bv bd = (nanos av ad ?= nanos bv bd).
+Proof.
+  intros Ha Hb. rewrite frac_cmp_c_value_order by lia. apply frac_cmp_fix_nanos; assumption.
+Qed.
+
+(* equal exactly for one rational value, and antisymmetric *)
+Theorem frac_cmp_c_eq_iff av ad bv bd : 0 <= ad -> 0 <= bd ->
+  (frac_cmp_c av ad bv bd = Eq <-> av * 10 ^ bd = bv * 10 ^ ad).
+Proof.
+  intros Ha Hb. rewrite frac_cmp_c_value_order by lia. unfold frac_cmp_fix. apply Z.compare_eq_iff.
+Qed.
+
+Theorem frac_cmp_c_antisym av ad bv bd : 0 <= ad -> 0 <= bd ->
+  frac_cmp_c bv bd av ad = CompOpp (frac_cmp_c av ad bv bd).
+Proof.
+  intros Ha Hb. rewrite !frac_cmp_c_value_order by lia. unfold frac_cmp_fix. apply Z.compare_antisym.
+Qed.
+
+(* the former witnesses of the defect: .5 against .50 (equal), no fraction against .0 (equal),
+   .5 against .25, .25 against .3 *)
+Theorem frac_cmp_c_witnesses :
+  frac_cmp_c 5 1 50 2 = Eq /\ frac_cmp_c 0 0 0 1 = Eq /\
+  frac_cmp_c 5 1 25 2 = Gt /\ frac_cmp_c 25 2 3 1 = Lt.
 Proof. vm_compute. repeat split. Qed.
